@@ -48,7 +48,7 @@ def f3_specs():
 
 def plan(tier, seed):
     cases = []
-    cm = ["poi1", "poi2", "poi3c", "onoff", "srcr"]
+    cm = ["poi1", "poi2", "poi3c", "onoff", "srcr", "srcr_specfixed"]
     f3 = ["M1", "M2", "M3", "M4"] if tier == "quick" else ["M1", "M2", "M3", "M4", "M5", "M6"]
     bes = ["numpy", "pytorch", "jax"] if tier == "quick" else ["numpy", "pytorch", "jax", "tensorflow"]
     for be in bes:
@@ -79,10 +79,16 @@ def eval_case(case):
     mn, be, opt = case["model"], case["backend"], case["optimizer"]
     issues, ncmp, dig = [], 0, []
     tol = TOL[opt]
-    counting = mn in counting_models()
+    specfixed = mn == "srcr_specfixed"
+    if specfixed:
+        mn_ = "srcr"
+    counting = (mn in counting_models()) or specfixed
     if counting:
-        mdl = counting_models()[mn]
+        mdl = counting_models()["srcr" if specfixed else mn]
         spec = mdl.spec()
+        if specfixed:
+            # the background normalisation is flagged fixed in the spec; the caller releases it with an explicit all-False mask
+            spec = dict(spec, parameters=[{"name": "k", "fixed": True, "inits": [1.0]}])
     else:
         mdl = None
         spec = f3_specs()[mn]
@@ -126,6 +132,8 @@ def eval_case(case):
             datasets.append([float(x) for x in np.ravel(tl.tolist(m.expected_data(C.tens(L.vector(cfg, p1)))))])
         grads = [False] if be.startswith("numpy") else [True, False]
         sugg_init, sugg_bounds, sugg_fixed = cfg.suggested_init(), [tuple(b) for b in cfg.suggested_bounds()], cfg.suggested_fixed()
+        if specfixed:
+            sugg_fixed = [False] * cfg.npars  # the caller's explicit mask: nothing fixed
         nuis_idx = [i for i in range(cfg.npars) if i != pidx and not sugg_fixed[i]]
         for di, data in enumerate(datasets):
             for kind in ("free", 0.0, 1.0 / 3.0, 1.0, 2.7):
